@@ -939,7 +939,7 @@ fn parse_pep508_requirement<T: Pep508Url>(
             // Rewind to the start of the version specifier, to see if the user added a URL without
             // a package name. pip supports this in `requirements.txt`, but it doesn't adhere to
             // the PEP 508 grammar.
-            let mut clone = cursor.clone().at(start);
+            let mut clone = cursor.clone().at(name_start);
             return if looks_like_unnamed_requirement(&mut clone) {
                 Err(Pep508Error {
                     message: Pep508ErrorSource::UnsupportedRequirement("URL requirement must be preceded by a package name. Add the name of the package before the URL (e.g., `package_name @ https://...`).".to_string()),
